@@ -12,22 +12,74 @@ variable {α β : Type} {cmp : α → α → Ordering}
 /-- the abstraction of a store: every tree becomes its in-order sequence -/
 def absStore (st : Store (Tree α β)) : Store (List (α × β)) := st.map (fun e => (e.1, e.2.abs))
 
-def AllValid (cmp : α → α → Ordering) (st : Store (Tree α β)) : Prop := ∀ e ∈ st, Valid cmp e.2
+/-- the sizes of the key and value types of every tree -/
+def sizeStore (st : Store (Tree α β)) : Store (Nat × Nat) := st.map (fun e => (e.1, e.2.sizes))
 
-/-- `assign(t, t)` is excluded (Tree_Assign clears `t` before reading it) -/
-def Op.wf : Op α β → Prop
-  | .assign t s => t ≠ s
+/-! ### typing of histories: `set` and `new` are given keys / values of the tree's key / value types -/
+
+/-- the sizes of the types of every tree as the history fixes them: given at `new`, taken over by `assign` / `copy` -/
+def tyStep (env : Store (Nat × Nat)) : Op α β → Store (Nat × Nat)
+  | .new t ks vs _ => env.put t (ks, vs)
+  | .set t _ _ => match env.get? t with | none => env | some z => env.put t z
+  | .rem t _ => match env.get? t with | none => env | some z => env.put t z
+  | .resize t _ => match env.get? t with | none => env | some z => env.put t z
+  | .assign t s => match env.get? t, env.get? s with | some _, some z => env.put t z | _, _ => env
+  | .copy t s => match env.get? s with | none => env | some z => env.put t z
+  | .del t => match env.get? t with | none => env | some _ => env.erase t
+  | _ => env
+
+/-- the keys and values an operation stores have the sizes of the tree's key and value types -/
+def Op.typed [Packed α] [Packed β] (env : Store (Nat × Nat)) : Op α β → Prop
+  | .new _ ks vs init => ∀ e ∈ init, Fits (ks, vs) e
+  | .set t k v => ∀ z, env.get? t = some z → Fits z (k, v)
   | _ => True
 
-theorem get?_abs (st : Store (Tree α β)) (t : Nat) : (absStore st).get? t = (st.get? t).map Tree.abs := by
-  simp [absStore, Store.get?, List.find?_map, Function.comp_def]
+/-- a well-typed history (what `cast(key, m->ktype)` / `cast(val, m->vtype)` enforce in `Tree_Set`) -/
+def WellTyped [Packed α] [Packed β] : Store (Nat × Nat) → List (Op α β) → Prop
+  | _, [] => True
+  | env, op :: ops => op.typed env ∧ WellTyped (tyStep env op) ops
 
-theorem erase_abs (st : Store (Tree α β)) (t : Nat) : absStore (st.erase t) = (absStore st).erase t := by
-  simp [absStore, Store.erase, List.filter_map, Function.comp_def]
+section maps
+variable {γ δ : Type} (f : γ → δ)
+
+theorem get?_map (st : Store γ) (t : Nat) :
+    Store.get? (st.map (fun e => (e.1, f e.2))) t = (st.get? t).map f := by
+  simp [Store.get?, List.find?_map, Function.comp_def]
+
+theorem erase_map (st : Store γ) (t : Nat) :
+    Store.erase (st.map (fun e => (e.1, f e.2))) t = (st.erase t).map (fun e => (e.1, f e.2)) := by
+  simp [Store.erase, List.filter_map, Function.comp_def]
+
+theorem put_map (st : Store γ) (t : Nat) (x : γ) :
+    Store.put (st.map (fun e => (e.1, f e.2))) t (f x) = (st.put t x).map (fun e => (e.1, f e.2)) := by
+  simp only [Store.put, erase_map]; rfl
+
+end maps
+
+theorem get?_abs (st : Store (Tree α β)) (t : Nat) : (absStore st).get? t = (st.get? t).map Tree.abs :=
+  get?_map Tree.abs st t
+
+theorem erase_abs (st : Store (Tree α β)) (t : Nat) : absStore (st.erase t) = (absStore st).erase t :=
+  (erase_map Tree.abs st t).symm
 
 theorem put_abs (st : Store (Tree α β)) (t : Nat) (m : Tree α β) :
-    absStore (st.put t m) = (absStore st).put t m.abs := by
-  simp only [Store.put, ← erase_abs]; rfl
+    absStore (st.put t m) = (absStore st).put t m.abs :=
+  (put_map Tree.abs st t m).symm
+
+theorem get?_size (st : Store (Tree α β)) (t : Nat) : (sizeStore st).get? t = (st.get? t).map Tree.sizes :=
+  get?_map Tree.sizes st t
+
+theorem erase_size (st : Store (Tree α β)) (t : Nat) : sizeStore (st.erase t) = (sizeStore st).erase t :=
+  (erase_map Tree.sizes st t).symm
+
+theorem put_size (st : Store (Tree α β)) (t : Nat) (m : Tree α β) :
+    sizeStore (st.put t m) = (sizeStore st).put t m.sizes :=
+  (put_map Tree.sizes st t m).symm
+
+section
+variable [Packed α] [Packed β]
+
+def AllValid (cmp : α → α → Ordering) (st : Store (Tree α β)) : Prop := ∀ e ∈ st, Valid cmp e.2
 
 theorem AllValid.nil : AllValid cmp ([] : Store (Tree α β)) := fun _ h => by cases h
 
@@ -47,104 +99,116 @@ theorem AllValid.put {st : Store (Tree α β)} (h : AllValid cmp st) (t : Nat) {
   · exact hm
   · exact h.erase t e he
 
+variable [LawfulPacked α] [LawfulPacked β]
+
 /-- one step -/
-theorem step_refines [TransCmp cmp] (st : Store (Tree α β)) (op : Op α β) (hv : AllValid cmp st) (hwf : op.wf) :
+theorem step_refines [TransCmp cmp] (st : Store (Tree α β)) (op : Op α β) (hv : AllValid cmp st)
+    (hty : op.typed (sizeStore st)) :
     ∃ st' o, step cmp st op = some (st', o) ∧ Spec.step cmp (absStore st) op = (absStore st', o) ∧
-      AllValid cmp st' := by
+      AllValid cmp st' ∧ tyStep (sizeStore st) op = sizeStore st' := by
   cases op with
-  | new t init =>
-    obtain ⟨m, e, v, a⟩ := new_valid (cmp := cmp) init
-    exact ⟨st.put t m, .done, by simp [step, e], by simp [Spec.step, put_abs, a], hv.put t v⟩
+  | new t ks vs init =>
+    obtain ⟨m, e, v, a, z⟩ := new_valid (cmp := cmp) ks vs init hty
+    exact ⟨st.put t m, .done, by simp [step, e], by simp [Spec.step, put_abs, a], hv.put t v,
+      by simp [tyStep, put_size, z]⟩
   | set t k v =>
-    simp only [step, Spec.step, get?_abs]
+    simp only [step, Spec.step, tyStep, get?_abs, get?_size]
     cases hg : st.get? t with
-    | none => exact ⟨st, .noobj, rfl, rfl, hv⟩
+    | none => exact ⟨st, .noobj, rfl, rfl, hv, rfl⟩
     | some m =>
-      obtain ⟨m', e, v', a⟩ := set_valid m k v (hv.get hg)
-      exact ⟨st.put t m', .done, by simp [e], by simp [put_abs, a], hv.put t v'⟩
+      obtain ⟨m', e, v', a, z⟩ := set_valid m k v (hv.get hg) (hty m.sizes (by simp [get?_size, hg]))
+      exact ⟨st.put t m', .done, by simp [e], by simp [put_abs, a], hv.put t v', by simp [put_size, z]⟩
   | rem t k =>
-    simp only [step, Spec.step, get?_abs]
+    simp only [step, Spec.step, tyStep, get?_abs, get?_size]
     cases hg : st.get? t with
-    | none => exact ⟨st, .noobj, rfl, rfl, hv⟩
+    | none => exact ⟨st, .noobj, rfl, rfl, hv, rfl⟩
     | some m =>
-      obtain ⟨m', o, e, v', a⟩ := rem_valid m k (hv.get hg)
-      refine ⟨st.put t m', obsOf o, by simp [e], ?_, hv.put t v'⟩
+      obtain ⟨m', o, e, v', z, a⟩ := rem_valid m k (hv.get hg)
+      refine ⟨st.put t m', obsOf o, by simp [e], ?_, hv.put t v', by simp [put_size, z]⟩
       rcases a with ⟨a1, rfl, rfl⟩ | ⟨a1, rfl, a3⟩
       · simp [a1, put_abs, obsOf]
       · obtain ⟨w, hw⟩ := Option.isSome_iff_exists.mp a1
         simp [hw, put_abs, obsOf, a3]
   | get t k =>
-    simp only [step, Spec.step, get?_abs]
+    simp only [step, Spec.step, tyStep, get?_abs]
     cases hg : st.get? t with
-    | none => exact ⟨st, .noobj, rfl, rfl, hv⟩
+    | none => exact ⟨st, .noobj, rfl, rfl, hv, rfl⟩
     | some m =>
-      refine ⟨st, _, rfl, ?_, hv⟩
+      refine ⟨st, _, rfl, ?_, hv, rfl⟩
       simp only [Option.map_some, get_eq m k (hv.get hg)]
       cases Spec.get cmp k m.abs <;> rfl
   | mem t k =>
-    simp only [step, Spec.step, get?_abs]
+    simp only [step, Spec.step, tyStep, get?_abs]
     cases hg : st.get? t with
-    | none => exact ⟨st, .noobj, rfl, rfl, hv⟩
-    | some m => exact ⟨st, _, rfl, by simp [mem_eq m k (hv.get hg)], hv⟩
+    | none => exact ⟨st, .noobj, rfl, rfl, hv, rfl⟩
+    | some m => exact ⟨st, _, rfl, by simp [mem_eq m k (hv.get hg)], hv, rfl⟩
   | len t =>
-    simp only [step, Spec.step, get?_abs]
+    simp only [step, Spec.step, tyStep, get?_abs]
     cases hg : st.get? t with
-    | none => exact ⟨st, .noobj, rfl, rfl, hv⟩
-    | some m => exact ⟨st, _, rfl, by simp [(hv.get hg).len_eq], hv⟩
+    | none => exact ⟨st, .noobj, rfl, rfl, hv, rfl⟩
+    | some m => exact ⟨st, _, rfl, by simp [(hv.get hg).len_eq], hv, rfl⟩
   | resize t n =>
-    simp only [step, Spec.step, get?_abs]
+    simp only [step, Spec.step, tyStep, get?_abs, get?_size]
     cases hg : st.get? t with
-    | none => exact ⟨st, .noobj, rfl, rfl, hv⟩
+    | none => exact ⟨st, .noobj, rfl, rfl, hv, rfl⟩
     | some m =>
       by_cases hn : n = 0
       · exact ⟨st.put t m.clear, .done, by simp [Tree.resize, hn, obsOf], by simp [hn, put_abs, Tree.clear, Tree.abs],
-          hv.put t valid_empty⟩
+          hv.put t (clear_valid m).1, by simp [put_size, (clear_valid (cmp := cmp) m).2.2]⟩
       · exact ⟨st.put t m, .err .FormatError, by simp [Tree.resize, hn, obsOf], by simp [hn, put_abs],
-          hv.put t (hv.get hg)⟩
+          hv.put t (hv.get hg), by simp [put_size]⟩
   | assign t s =>
-    have hne : t ≠ s := hwf
-    simp only [step, Spec.step, get?_abs]
+    simp only [step, Spec.step, tyStep, get?_abs, get?_size]
     cases hg : st.get? t with
-    | none => exact ⟨st, .noobj, by simp, by simp, hv⟩
+    | none => exact ⟨st, .noobj, by simp, by simp, hv, by simp⟩
     | some m =>
       cases hs : st.get? s with
-      | none => exact ⟨st, .noobj, by simp, by simp, hv⟩
+      | none => exact ⟨st, .noobj, by simp, by simp, hv, by simp⟩
       | some src =>
-        obtain ⟨m', e, v', a⟩ := assign_valid (cmp := cmp) m src (hv.get hs)
-        exact ⟨st.put t m', .done, by simp [hne, e, obsOf], by simp [put_abs, a], hv.put t v'⟩
+        by_cases hts : t = s
+        · -- `self is obj`: nothing happens; the map assigned to itself is itself
+          subst hts
+          rw [hg] at hs; cases hs
+          exact ⟨st.put t m, .done, by simp [Tree.assignSelf, obsOf], by simp [put_abs], hv.put t (hv.get hg),
+            by simp [put_size]⟩
+        · obtain ⟨m', e, v', a, z⟩ := assign_valid (cmp := cmp) m src (hv.get hs)
+          exact ⟨st.put t m', .done, by simp [hts, e, obsOf], by simp [put_abs, a], hv.put t v',
+            by simp [put_size, z]⟩
   | copy t s =>
-    simp only [step, Spec.step, get?_abs]
+    simp only [step, Spec.step, tyStep, get?_abs, get?_size]
     cases hs : st.get? s with
-    | none => exact ⟨st, .noobj, rfl, rfl, hv⟩
+    | none => exact ⟨st, .noobj, rfl, rfl, hv, rfl⟩
     | some src =>
-      obtain ⟨m', e, v', a⟩ := copy_valid (cmp := cmp) src (hv.get hs)
-      exact ⟨st.put t m', .done, by simp [e, obsOf], by simp [put_abs, a], hv.put t v'⟩
+      obtain ⟨m', e, v', a, z⟩ := copy_valid (cmp := cmp) src (hv.get hs)
+      exact ⟨st.put t m', .done, by simp [e, obsOf], by simp [put_abs, a], hv.put t v', by simp [put_size, z]⟩
   | iter t =>
-    simp only [step, Spec.step, get?_abs]
+    simp only [step, Spec.step, tyStep, get?_abs]
     cases hg : st.get? t with
-    | none => exact ⟨st, .noobj, rfl, rfl, hv⟩
-    | some m => exact ⟨st, .items m.abs true, by simp [iterFwd_valid m (hv.get hg)], by simp, hv⟩
+    | none => exact ⟨st, .noobj, rfl, rfl, hv, rfl⟩
+    | some m => exact ⟨st, .items m.abs true, by simp [iterFwd_valid m (hv.get hg)], by simp, hv, rfl⟩
   | riter t =>
-    simp only [step, Spec.step, get?_abs]
+    simp only [step, Spec.step, tyStep, get?_abs]
     cases hg : st.get? t with
-    | none => exact ⟨st, .noobj, rfl, rfl, hv⟩
-    | some m => exact ⟨st, .items m.abs.reverse true, by simp [iterBwd_valid m (hv.get hg)], by simp, hv⟩
+    | none => exact ⟨st, .noobj, rfl, rfl, hv, rfl⟩
+    | some m => exact ⟨st, .items m.abs.reverse true, by simp [iterBwd_valid m (hv.get hg)], by simp, hv, rfl⟩
   | del t =>
-    simp only [step, Spec.step, get?_abs]
+    simp only [step, Spec.step, tyStep, get?_abs, get?_size]
     cases hg : st.get? t with
-    | none => exact ⟨st, .noobj, rfl, rfl, hv⟩
-    | some m => exact ⟨st.erase t, .done, rfl, by simp [erase_abs], hv.erase t⟩
+    | none => exact ⟨st, .noobj, rfl, rfl, hv, rfl⟩
+    | some m => exact ⟨st.erase t, .done, rfl, by simp [erase_abs], hv.erase t, by simp [erase_size]⟩
 
 /-- whole histories -/
 theorem run_refines [TransCmp cmp] (ops : List (Op α β)) (st : Store (Tree α β)) (hv : AllValid cmp st)
-    (hwf : ∀ op ∈ ops, op.wf) :
+    (hty : WellTyped (sizeStore st) ops) :
     ∃ st' os, run cmp st ops = some (st', os) ∧ Spec.run cmp (absStore st) ops = (absStore st', os) ∧
       AllValid cmp st' := by
   induction ops generalizing st with
   | nil => exact ⟨st, [], rfl, rfl, hv⟩
   | cons op ops ih =>
-    obtain ⟨st1, o, e1, s1, v1⟩ := step_refines st op hv (hwf op (by simp))
-    obtain ⟨st2, os, e2, s2, v2⟩ := ih st1 v1 (fun op' h => hwf op' (by simp [h]))
+    obtain ⟨st1, o, e1, s1, v1, z1⟩ := step_refines st op hv hty.1
+    obtain ⟨st2, os, e2, s2, v2⟩ := ih st1 v1 (by rw [← z1]; exact hty.2)
     exact ⟨st2, o :: os, by simp [run, e1, e2], by simp [Spec.run, s1, s2], v2⟩
+
+end
 
 end Cello.RB
